@@ -18,6 +18,20 @@
 (*     placement of the single result at index i ("place").               *)
 (*  cancelled  the context derived by the call; parent: the caller's own. *)
 (*                                                                         *)
+(* Member errors.  A member that fails on its own (act = 0) returns an     *)
+(* error of any kind: a plain one, or one that *looks like* a context     *)
+(* error (context.Canceled / DeadlineExceeded, bare, wrapped with %w, or  *)
+(* as gRPC status) -- cfg.ctxerr[m] -- because of a per-member timeout or *)
+(* an inner operation, whatever the state of the group's context (live,  *)
+(* cancelled, expired: `parent`, set by CancelParent at any moment).      *)
+(* The design never reads the kind of a member's error: every action     *)
+(* below treats act = 0 and act = 2 alike, ctxerr or not.  Only the       *)
+(* group's own context ending may cut a strategy short (GroupContract,    *)
+(* clause "one-order"); this design does not even do that.  The parameter *)
+(* StopOnCtxErr = TRUE describes the tempting variant "ExecuteOne stops   *)
+(* trying when a member's error is a context error"; TLC refutes          *)
+(* ContractHolds for it (GroupStopOnCtxErr.cfg).                          *)
+(*                                                                         *)
 (* Design parameters: Cap (see above) and Guard (Execute checks that the  *)
 (* index exists before placing).  The code as pinned is Cap = "zero",     *)
 (* Guard = FALSE; GroupMC.cfg checks Cap = "n", Guard = TRUE, for which    *)
@@ -28,21 +42,24 @@ EXTENDS GroupContract
 
 CONSTANTS MaxN,     \* groups of 0..MaxN members
           AwareN,   \* groups of up to AwareN members also range over cancellation-aware members and a caller that cancels
-          Cap, Guard
+          KindN,    \* groups of up to KindN members also range over which failing members return context-like errors
+          Cap, Guard, StopOnCtxErr
 
-VARIABLES cfg,        \* [n, strat, api, plan, aware, pcan]: fixed in Init
+VARIABLES cfg,        \* [n, strat, api, plan, aware, ctxerr, pcan]: fixed in Init
           mpc, act, seen,
           chanq, closed, clpc,
           cpc, inbox, errCount, firstErr, results, ret, cur,
           cancelled, parent,
-          resps       \* history: members in the order the collector observed their responses
-vars == <<cfg, mpc, act, seen, chanq, closed, clpc, cpc, inbox, errCount, firstErr, results, ret, cur, cancelled, parent, resps>>
+          resps,      \* history: members in the order the collector observed their responses
+          pcAt        \* history: how many responses had been observed when the caller's context ended, -1 = it has not
+vars == <<cfg, mpc, act, seen, chanq, closed, clpc, cpc, inbox, errCount, firstErr, results, ret, cur, cancelled, parent, resps, pcAt>>
 
 Configs ==
-  UNION { { [n |-> n, strat |-> s, api |-> a, plan |-> p, aware |-> w, pcan |-> pc] :
+  UNION { { [n |-> n, strat |-> s, api |-> a, plan |-> p, aware |-> w, ctxerr |-> ce, pcan |-> pc] :
               s \in Strategies, a \in {"Direct", "Execute"}, p \in [1..n -> BOOLEAN],
               w \in (IF n <= AwareN THEN [1..n -> BOOLEAN] ELSE {[m \in 1..n |-> FALSE]}),
-              pc \in (IF n <= AwareN THEN BOOLEAN ELSE {FALSE}) }
+              ce \in (IF n <= KindN THEN [1..n -> BOOLEAN] ELSE {[m \in 1..n |-> FALSE]}),
+              pc \in (IF n <= AwareN \/ n <= KindN THEN BOOLEAN ELSE {FALSE}) }
           : n \in 0..MaxN }
 
 N == cfg.n
@@ -54,7 +71,8 @@ Allowed == CASE cfg.strat = "All" -> 0 [] cfg.strat = "Most" -> N \div 2 [] cfg.
 Leave == IF cfg.api = "Execute" /\ cfg.strat \in Single THEN "place" ELSE "returned"
 
 Init ==
-  /\ cfg \in { c \in Configs : c.strat \in UpTo => c.api = "Direct" }   \* Execute only forwards for All/Most/Any
+  /\ cfg \in { c \in Configs : /\ c.strat \in UpTo => c.api = "Direct"     \* Execute only forwards for All/Most/Any
+                               /\ \A m \in 1..c.n : c.ctxerr[m] => ~c.plan[m] }   \* (the kind of error of a member that succeeds is moot)
   /\ mpc = [m \in 1..N |-> IF Par THEN "run" ELSE "idle"]
   /\ act = [m \in 1..N |-> -1]
   /\ seen = [m \in 1..N |-> FALSE]
@@ -64,7 +82,7 @@ Init ==
   /\ inbox = 0 /\ errCount = 0 /\ firstErr = 0
   /\ results = [m \in 1..N |-> 0]
   /\ ret = [err |-> -1, idx |-> 0, msg |-> 0]
-  /\ cur = 1 /\ cancelled = FALSE /\ parent = FALSE /\ resps = <<>>
+  /\ cur = 1 /\ cancelled = FALSE /\ parent = FALSE /\ resps = <<>> /\ pcAt = -1
 
 ----------------------------------------------------------------------------
 MemberReturns(m) ==
@@ -74,29 +92,29 @@ MemberReturns(m) ==
   /\ seen' = [seen EXCEPT ![m] = CtxDone]
   /\ IF Par THEN mpc' = [mpc EXCEPT ![m] = "send"] /\ UNCHANGED cpc
             ELSE mpc' = [mpc EXCEPT ![m] = "done"] /\ cpc' = "back"
-  /\ UNCHANGED <<cfg, chanq, closed, clpc, inbox, errCount, firstErr, results, ret, cur, cancelled, parent, resps>>
+  /\ UNCHANGED <<cfg, chanq, closed, clpc, inbox, errCount, firstErr, results, ret, cur, cancelled, parent, resps, pcAt>>
 
 Send(m) ==
   /\ mpc[m] = "send"
   /\ \/ CapN > 0 /\ Len(chanq) < CapN /\ chanq' = Append(chanq, m) /\ UNCHANGED <<cpc, inbox>>
      \/ CapN = 0 /\ cpc = "recv" /\ inbox' = m /\ cpc' = "got" /\ UNCHANGED chanq
   /\ mpc' = [mpc EXCEPT ![m] = "done"]      \* all.Done()
-  /\ UNCHANGED <<cfg, act, seen, closed, clpc, errCount, firstErr, results, ret, cur, cancelled, parent, resps>>
+  /\ UNCHANGED <<cfg, act, seen, closed, clpc, errCount, firstErr, results, ret, cur, cancelled, parent, resps, pcAt>>
 
 Close ==
   /\ clpc = "wait" /\ \A m \in 1..N : mpc[m] = "done"
   /\ closed' = TRUE /\ clpc' = "done"
-  /\ UNCHANGED <<cfg, mpc, act, seen, chanq, cpc, inbox, errCount, firstErr, results, ret, cur, cancelled, parent, resps>>
+  /\ UNCHANGED <<cfg, mpc, act, seen, chanq, cpc, inbox, errCount, firstErr, results, ret, cur, cancelled, parent, resps, pcAt>>
 
 Recv ==
   /\ cpc = "recv" /\ chanq # <<>>
   /\ inbox' = Head(chanq) /\ chanq' = Tail(chanq) /\ cpc' = "got"
-  /\ UNCHANGED <<cfg, mpc, act, seen, closed, clpc, errCount, firstErr, results, ret, cur, cancelled, parent, resps>>
+  /\ UNCHANGED <<cfg, mpc, act, seen, closed, clpc, errCount, firstErr, results, ret, cur, cancelled, parent, resps, pcAt>>
 
 RecvClosed ==
   /\ cpc = "recv" /\ chanq = <<>> /\ closed
   /\ cpc' = "end"
-  /\ UNCHANGED <<cfg, mpc, act, seen, chanq, closed, clpc, inbox, errCount, firstErr, results, ret, cur, cancelled, parent, resps>>
+  /\ UNCHANGED <<cfg, mpc, act, seen, chanq, closed, clpc, inbox, errCount, firstErr, results, ret, cur, cancelled, parent, resps, pcAt>>
 
 \* the loop body
 Process ==
@@ -118,7 +136,7 @@ Process ==
             /\ ret' = IF ok THEN [err |-> -1, idx |-> m, msg |-> m] ELSE [err |-> m, idx |-> m, msg |-> 0]
             /\ cancelled' = TRUE /\ cpc' = Leave
             /\ UNCHANGED <<results, firstErr, errCount>>
-  /\ UNCHANGED <<cfg, mpc, act, seen, chanq, closed, clpc, inbox, cur, parent>>
+  /\ UNCHANGED <<cfg, mpc, act, seen, chanq, closed, clpc, inbox, cur, parent, pcAt>>
 
 \* the channel was closed: after the loop (the deferred cancelFunc runs on return)
 End ==
@@ -133,25 +151,27 @@ End ==
             /\ cpc' = Leave
        [] cfg.strat = "Race" ->
             /\ ret' = [err |-> 0, idx |-> 1, msg |-> 0] /\ cpc' = Leave
-  /\ UNCHANGED <<cfg, mpc, act, seen, chanq, closed, clpc, inbox, errCount, firstErr, results, cur, parent, resps>>
+  /\ UNCHANGED <<cfg, mpc, act, seen, chanq, closed, clpc, inbox, errCount, firstErr, results, cur, parent, resps, pcAt>>
 
 \* ExecuteOne
 OneCall ==
   /\ cpc = "call" /\ cur <= N
   /\ mpc' = [mpc EXCEPT ![cur] = "run"] /\ cpc' = "wait"
-  /\ UNCHANGED <<cfg, act, seen, chanq, closed, clpc, inbox, errCount, firstErr, results, ret, cur, cancelled, parent, resps>>
+  /\ UNCHANGED <<cfg, act, seen, chanq, closed, clpc, inbox, errCount, firstErr, results, ret, cur, cancelled, parent, resps, pcAt>>
 OneBack ==
   /\ cpc = "back"
   /\ resps' = Append(resps, cur)
   /\ IF act[cur] = 1
        THEN ret' = [err |-> -1, idx |-> cur, msg |-> cur] /\ cpc' = Leave /\ UNCHANGED <<firstErr, cur>>
-       ELSE firstErr' = (IF cur = 1 THEN cur ELSE firstErr) /\ cur' = cur + 1 /\ cpc' = "call" /\ UNCHANGED ret
-  /\ UNCHANGED <<cfg, mpc, act, seen, chanq, closed, clpc, inbox, errCount, results, cancelled, parent>>
+       ELSE /\ firstErr' = (IF cur = 1 THEN cur ELSE firstErr) /\ cpc' = "call" /\ UNCHANGED ret
+            \* the design goes on to the next member whatever kind of error this one returned
+            /\ cur' = IF StopOnCtxErr /\ (act[cur] = 2 \/ cfg.ctxerr[cur]) THEN N + 1 ELSE cur + 1
+  /\ UNCHANGED <<cfg, mpc, act, seen, chanq, closed, clpc, inbox, errCount, results, cancelled, parent, pcAt>>
 OneEnd ==
   /\ cpc = "call" /\ cur > N
   /\ ret' = [err |-> IF firstErr = 0 THEN -1 ELSE firstErr, idx |-> 1, msg |-> 0]     \* return nil, 0, firstErr
   /\ cpc' = Leave
-  /\ UNCHANGED <<cfg, mpc, act, seen, chanq, closed, clpc, inbox, errCount, firstErr, results, cur, cancelled, parent, resps>>
+  /\ UNCHANGED <<cfg, mpc, act, seen, chanq, closed, clpc, inbox, errCount, firstErr, results, cur, cancelled, parent, resps, pcAt>>
 
 \* Execute: allRes := make([]proto.Message, len(members)); allRes[i] = res
 Place ==
@@ -159,10 +179,10 @@ Place ==
   /\ IF ret.idx \in 1..N
        THEN results' = [m \in 1..N |-> IF m = ret.idx THEN ret.msg ELSE 0] /\ cpc' = "returned"
        ELSE results' = results /\ cpc' = (IF Guard THEN "returned" ELSE "panicked")
-  /\ UNCHANGED <<cfg, mpc, act, seen, chanq, closed, clpc, inbox, errCount, firstErr, ret, cur, cancelled, parent, resps>>
+  /\ UNCHANGED <<cfg, mpc, act, seen, chanq, closed, clpc, inbox, errCount, firstErr, ret, cur, cancelled, parent, resps, pcAt>>
 
 CancelParent ==
-  /\ cfg.pcan /\ ~parent /\ parent' = TRUE
+  /\ cfg.pcan /\ ~parent /\ parent' = TRUE /\ pcAt' = Len(resps)
   /\ UNCHANGED <<cfg, mpc, act, seen, chanq, closed, clpc, cpc, inbox, errCount, firstErr, results, ret, cur, cancelled, resps>>
 
 Next == \/ \E m \in 1..N : MemberReturns(m) \/ Send(m)
@@ -185,7 +205,11 @@ Outcome ==
   [strat |-> cfg.strat, api |-> cfg.api, n |-> N, act |-> act, ran |-> [m \in 1..N |-> mpc[m] # "idle"], seen |-> seen,
    obs |-> [k \in 1..Len(resps) |-> [lead |-> resps[k], all |-> <<resps[k]>>]] \o <<[lead |-> 0, all |-> SetToSeq(Unobserved)]>>,
    panic |-> IF cpc = "panicked" THEN "index out of range" ELSE "", returned |-> cpc = "returned",
-   err |-> ret.err, idx |-> ret.idx, msg |-> ret.msg, res |-> results, resLen |-> N,
+   err |-> ret.err, errk |-> IF ret.err = -1 THEN "" ELSE "plain", idx |-> ret.idx, msg |-> ret.msg, res |-> results, resLen |-> N,
+   \* (every error carries its member's id here; which kind it is plays no part in the design)
+   ek |-> [m \in 1..N |-> IF act[m] \in {0, 2} THEN "plain" ELSE ""],
+   \* ExecuteOne calls the members itself: the member observed as number pcAt + 1 is the first to return after the caller's context ended
+   cc |-> IF pcAt = -1 THEN 0 ELSE pcAt + 1,
    leak |-> Cardinality({m \in 1..N : mpc[m] \in {"run", "send"}}) + (IF clpc = "wait" THEN 1 ELSE 0)]
 
 (* Strategy contract, own index, first error: on every outcome. *)
